@@ -1052,6 +1052,100 @@ def rule_jumpword_restore(rep: Report, stl: Stl, prop: str, files: List[str], fl
                       f'{m.file}:{m.line} {m.name}', expected='the same wflip again before any exit')
 
 
+# ---------------------------------------------------------------- FJ.ALIAS-SAFE (documented "works when both operands are the same variable")
+
+def doc_alias_safe_claims(m: Macro) -> List[Tuple[str, str]]:
+    """(p, q) for which the doc block promises correct behaviour when p and q are the same address."""
+    text = ' '.join(l[2:].strip() for l in m.doc)
+    out: List[Tuple[str, str]] = []
+    for a, b in re.findall(r"[Ww]orks if\s+(\w+)\s*==\s*(\w+)", text):
+        out.append((a, b))
+    for a, b in re.findall(r"[Ss]afe (?:when|if)\s+(\w+) and (\w+) are (?:the )?(?:exact )?same address", text):
+        out.append((a, b))
+    if re.search(r"safe if they are the exact same address", text):
+        for a, b in re.findall(r"[Uu]nsafe if\s+(\w+) and (\w+) overlap", text):
+            out.append((a, b))
+    return [(a, b) for a, b in out if a in m.params and b in m.params]
+
+
+def rule_alias_safe(rep: Report, stl: Stl, prop: str, files: List[str], floor: int, w: int = 64) -> None:
+    rule = f'{prop}.ALIAS-SAFE'
+    rep.rule(rule, 'a macro whose documentation promises that it works when two operands are the SAME variable keeps that promise '
+             'structurally: either a compile-time guard `comp_if1 p==q, <label after the body>` skips the body for that case, or - read '
+             'with p and q as one variable - no statement destroys the variable (a documented plain assignment that does not read it) '
+             'before a later statement reads it. Effects come from the callee doc formulas; statement order of the body', floor)
+    for key, m in sorted(stl.macros.items()):
+        if m.file not in files:
+            continue
+        claims = doc_alias_safe_claims(m)
+        if not claims:
+            continue
+        ext = doc_extents(m)
+        env: Dict[str, Any] = base_env(w)
+        for prm in m.params:
+            if prm not in ext:
+                env[prm] = 4
+        label_pos = {op[1].split('.')[-1]: i for i, op in enumerate(m.body) if op[0] == 'label'}
+        for p_, q_ in claims:
+            guarded = False
+            destroyed_at: Optional[int] = None
+            bad: Optional[str] = None
+            unknown: List[str] = []
+            last_effect = max([i for i, op in enumerate(m.body) if op[0] in ('call', 'rep', 'fj', 'wflip')] or [0])
+            for i, op in enumerate(m.body):
+                if op[0] == 'call' and op[1].split('.')[-1] in ('comp_if1', 'comp_if') and len(op[2]) >= 2:
+                    c = op[2][0]
+                    if isinstance(c, tuple) and c[0] == '==' and {repr(c[1]), repr(c[2])} == {repr(('id', p_)), repr(('id', q_))}:
+                        tgt = op[2][1]
+                        if isinstance(tgt, tuple) and tgt[0] == 'id' and label_pos.get(tgt[1], -1) > last_effect and destroyed_at is None:
+                            guarded = True
+                            break
+                if op[0] not in ('call', 'rep'):
+                    continue
+                # read as one variable, an operand pair handed to a callee that documents "doesn't work if a == b" coincides
+                cname, cargs = (op[1], op[2]) if op[0] == 'call' else (op[3], op[4])
+                cal = stl.macros.get((cname, len(cargs)))
+                if cal is not None and bad is None:
+                    env_alias = dict(env)
+                    env_alias[p_] = {'<same>': 1}
+                    env_alias[q_] = {'<same>': 1}
+                    if op[0] == 'rep':
+                        env_alias[op[2]] = 0
+                    for kind_, a_, b_ in doc_alias_hazards(cal):
+                        if kind_ != 'equal':
+                            continue
+                        try:
+                            fa = ev(cargs[cal.params.index(a_)], env_alias)
+                            fb = ev(cargs[cal.params.index(b_)], env_alias)
+                        except (NeedConcrete, OpaqueValue, AnalysisError, ValueError):
+                            continue
+                        if '<same>' in fa and _lin_key(fa) == _lin_key(fb):
+                            bad = (f'with {p_} and {q_} the same variable, line {op[-1]} applies `{_stmt_name(op)}` - documented not to work when its '
+                                   f'{a_} and {b_} coincide - to that one variable')
+                try:
+                    eff = _effect_on(stl, op, {p_, q_}, env)
+                except (NeedConcrete, OpaqueValue, AnalysisError):
+                    continue
+                for v_ in (p_, q_):
+                    if v_ in eff and eff[v_] is None:
+                        unknown.append(f'line {op[-1]} `{_stmt_name(op)}`')
+                reads = any(eff.get(v_) in ('read', 'update') for v_ in (p_, q_))
+                if destroyed_at is not None and reads and bad is None:
+                    bad = (f'with {p_} and {q_} the same variable, line {destroyed_at} overwrites it and line {op[-1]} `{_stmt_name(op)}` then reads it: '
+                           'the documented "works when they are the same address" no longer holds')
+                assigns = [v_ for v_ in (p_, q_) if eff.get(v_) == 'assign']
+                if assigns and not any(eff.get(v_) in ('read', 'update') for v_ in (p_, q_)) and destroyed_at is None:
+                    destroyed_at = op[-1]
+            if guarded:
+                rep.ok(rule, f'{key[0]}/{key[1]}:{p_}=={q_}', 'compile-time guard skips the body when both operands are the same address', f'{m.file}:{m.line} {m.name}')
+            elif bad:
+                rep.fail(rule, f'{key[0]}/{key[1]}:{p_}=={q_}', bad, f'{m.file}:{m.line} {m.name}', expected='a guard for the aliased case, or reads before the overwrite')
+            elif unknown and destroyed_at is not None:
+                rep.uncovered.append(f'{rule}: {key[0]}/{key[1]} ({p_}=={q_}): statements without a documented effect after the overwrite: {unknown[:2]}')
+            else:
+                rep.ok(rule, f'{key[0]}/{key[1]}:{p_}=={q_}', 'read as one variable: nothing reads it after a destroying assignment', f'{m.file}:{m.line} {m.name}')
+
+
 # ---------------------------------------------------------------- FJ.SNAPSHOT (inputs are sampled before any input is modified in place)
 
 def rule_snapshot_order(rep: Report, stl: Stl, prop: str, files: List[str], floor: int, w: int = 64) -> None:
@@ -1434,6 +1528,30 @@ def rule_ptr_stride(rep: Report, stl: Stl) -> None:
                     ok = False
                     detail = f'w={w}: n={n_l} ptr={p_l} amount={c_l}'
         rep.check(ok, rule, name, detail or f'{callee} w/4, ptr, {amount}', f'{m.file}:{m.line}', expected=f'{callee} w/4, ptr, {amount}')
+    # the bit-vector pointers: +-1 applied at the bit whose weight is 2w (cell #w = log2(2w)), with a carry chain that reaches
+    # the pointer's top bit (start cell + length == w), for every width
+    for name, callee in (('bit.ptr_inc', 'bit.inc'), ('bit.ptr_dec', 'bit.dec')):
+        m = stl.macros[(name, 1)]
+        ops = [op for op in m.body if op[0] == 'call']
+        ok = len(ops) == 1 and ops[0][1] == callee and len(ops[0][2]) == 2
+        detail = ''
+        if ok:
+            for w in (16, 32, 64):
+                env = dict(base_env(w))
+                env['ptr'] = {'ptr': 1}
+                try:
+                    n_v = conc(ev(ops[0][2][0], env))
+                    p_l = ev(ops[0][2][1], env)
+                except (NeedConcrete, OpaqueValue, AnalysisError) as ex:
+                    ok, detail = False, f'w={w}: {ex}'
+                    break
+                cell = p_l.get('', 0) // (2 * w)
+                if p_l.get('ptr') != 1 or p_l.get('', 0) % (2 * w) or (1 << cell) != 2 * w or cell + n_v != w:
+                    ok = False
+                    detail = f'w={w}: {callee} over {n_v} bits from cell {cell} (want cell {(2 * w).bit_length() - 1}, reaching bit w-1: {w - ((2 * w).bit_length() - 1)} bits)'
+                    break
+        rep.check(ok, rule, name, detail or f'{callee} from the 2w-weight bit up to the top bit, at w = 16, 32, 64', f'{m.file}:{m.line}',
+                  expected='+-1 at bit log2(2w), carry chain up to bit w-1')
     m = stl.macros[('hex.ptr_index', 3)]
     seq = [(op[0], op[1] if op[0] == 'call' else op[3]) for op in m.body if op[0] in ('call', 'rep')]
     ok_shape = seq == [('call', 'hex.mov'), ('call', 'hex.shl_hex'), ('rep', 'hex.shr_bit'), ('call', 'hex.shl_hex'), ('call', 'hex.add')]
